@@ -162,8 +162,27 @@ def viterbi_theory(ex, st):
                                                                   to_z3(s_eq(V(t, s), s_add(V(t - 1, W(t, s)), X.get(t, s)))))),
                                       patterns=[Vp(t, s)])),
     ]
-    return {'V': SpecFunc(V, 'V'), 'allowed': SpecFunc(allowed, 'allowed'),
-            'PCOST': None}, axioms
+    # an ARBITRARY allowed state path Q (an uninterpreted function: whatever is proved about it holds for every such path) and
+    # its accumulated cost PCOST(t) = initial cost of Q(0) + sum of the frame costs along Q up to frame t
+    Q = z3.Function('ANY_PATH', z3.IntSort(), z3.IntSort())
+    Pp = z3.Function('ANY_PATH_cost_inf', z3.IntSort(), z3.BoolSort())
+    Pv = z3.Function('ANY_PATH_cost_val', z3.IntSort(), z3.RealSort())
+    T = to_int(X.shape[0])
+    u = z3.Int('u')
+
+    def PC(t_):
+        return XReal(Pp(to_int(t_)), False, Pv(to_int(t_)))
+
+    def pc_def(t_):
+        t_ = to_int(t_)
+        return z3.And(z3.Implies(t_ == 0, to_z3(s_eq(PC(0), s_add(init(Q(0)), X.get(0, Q(0)))))),
+                      z3.Implies(t_ >= 1, to_z3(s_eq(PC(t_), s_add(PC(t_ - 1), X.get(t_, Q(t_)))))))
+    # "Q is an allowed state path" is a HYPOTHESIS of the statements about Q (never an axiom: for a transition matrix without any
+    # allowed path an axiom would be contradictory and make every proof of this function vacuous)
+    qvalid = z3.And(z3.ForAll([u], z3.Implies(z3.And(u >= 0, u < T), inr(Q(u))), patterns=[Q(u)]),
+                    z3.ForAll([u], z3.Implies(z3.And(u >= 1, u < T), allowed(Q(u - 1), Q(u))), patterns=[Q(u)]))
+    return {'V': SpecFunc(V, 'V'), 'allowed': SpecFunc(allowed, 'allowed'), 'QVALID': SpecFunc(lambda: qvalid, 'QVALID'),
+            'Q': SpecFunc(lambda t_: Q(to_int(t_)), 'Q'), 'PCOST': SpecFunc(PC, 'PCOST', defn=pc_def)}, axioms
 
 
 def _where_allowed(ex, st, cond, *rest, **kw):
@@ -206,6 +225,9 @@ CONTRACTS[(PATH, 'viterbi_align')] = Contract(
         # walking back from the final state every state on the path has finite optimal cost
         {'name': 'path-finite', 'var': 'u', 'lo': '0', 'hi': _TT + ' - 1', 'direction': 'down',
          'stmt': '0 <= result[u] and result[u] < ' + _SS + ' and not isinf(V(u, result[u]))'},
+        # V is a lower bound of the accumulated cost of EVERY allowed state path (Q is arbitrary): Bellman => minimum
+        {'name': 'V-is-lower-bound-of-every-path', 'var': 'u', 'lo': '0', 'hi': _TT + ' - 1', 'direction': 'up',
+         'stmt': 'implies(QVALID(), V(u, Q(u)) <= PCOST(u))'},
     ],
     ensures=['len(result) == ' + _TT,
              # ends in one of the two final states, the cheaper one
@@ -215,7 +237,11 @@ CONTRACTS[(PATH, 'viterbi_align')] = Contract(
              'forall(lambda t: implies(1 <= t and t < ' + _TT + ', allowed(result[t - 1], result[t]) and '
              'V(t, result[t]) == V(t - 1, result[t - 1]) + neg_logits[t, result[t]]))',
              # it starts in one of the two initial states
-             '(result[0] == 0 or result[0] == 1)'],
+             '(result[0] == 0 or result[0] == 1)',
+             # minimum cost: no allowed state path that ends in a final state is cheaper than the returned one (whose accumulated
+             # cost is V at its last state, by the previous clauses)
+             'implies(QVALID() and (Q(' + _TT + ' - 1) == ' + _SS + ' - 1 or Q(' + _TT + ' - 1) == ' + _SS + ' - 2), '
+             'V(' + _TT + ' - 1, result[' + _TT + ' - 1]) <= PCOST(' + _TT + ' - 1))'],
     loops={0: LoopSpec(counter='kk', modifies={'backpointers': 'lambda t, s: 1 <= t and t <= kk'}, inv=[
         'len(act_cost) == ' + _SS, 'backpointers.shape[0] == ' + _TT + ' and backpointers.shape[1] == ' + _SS,
         # the two halves of act_cost = V(kk, .) are separate obligations (each needs one Bellman condition); the equality
